@@ -427,8 +427,16 @@ func main() {
 						bySig[d.Sig] = d
 					}
 				}
-				if ex.Srv.Exited() {
+				if !ex.Hung && ex.Srv.Exited() {
 					bySig["tcp-crash"] = seqrun.Div{Kind: "crash", Detail: "server exited during TCP replay: " + ex.Srv.CrashLine(), Sig: "tcp-crash"}
+					break
+				}
+				if ex.Hung { // (taking the goroutine dump ends the server process)
+					d := seqrun.Div{Kind: "hang", Detail: "TCP replay: the server process is alive but a command of this program got no reply within the client's timeout; its goroutines:\n" + ex.HungDump, Sig: "tcp-hang"}
+					for _, c := range prog {
+						d.Program = append(d.Program, seqrun.QuoteFull(c))
+					}
+					bySig[d.Sig] = d
 					break
 				}
 			}
